@@ -233,7 +233,21 @@ def _build(cfg):
         return RectanglePixelRegion(PixCoord(cx, cy), cfg['width'], cfg['height'],
                                     angle=math.degrees(cfg['theta']) * u.deg)
     vx, vy = _poly_vertices(cfg)
-    return PolygonPixelRegion(PixCoord(np.array(vx, float), np.array(vy, float)))
+    vx, vy = np.array(vx, float), np.array(vy, float)
+    # construction route of the polygon (by configuration hash): absolute vertices | vertices relative to an `origin=` |
+    # built with other vertices, used, then the vertices re-assigned
+    import zlib
+    route = zlib.crc32(repr((cfg['name'], cfg['scale'], cfg['phase'])).encode()) % 3
+    if route == 1:
+        ox, oy = 12.5, -7.25
+        return PolygonPixelRegion(PixCoord(vx - ox, vy - oy), origin=PixCoord(ox, oy))
+    if route == 2:
+        reg = PolygonPixelRegion(PixCoord(vx * 1.5 + 3.0, vy * 0.75 - 2.0))
+        reg.to_mask('center')
+        reg.bounding_box
+        reg.vertices = PixCoord(vx, vy)
+        return reg
+    return PolygonPixelRegion(PixCoord(vx, vy))
 
 
 def _poly_vertices(cfg):
